@@ -14,6 +14,9 @@ try:
         if filt and not any(f.lower() in name.lower() for f in filt):
             continue
         d = os.path.join(HERE, "seeded", name)
+        if json.load(open(os.path.join(d, "meta.json"))).get("superseded_by"):
+            print("%-66s superseded by a later fix" % name[:66])
+            continue
         r0 = sh("cd %s && timeout 600 /venv/bin/python %s/demo.py" % (wt, d), env=env)
         a = sh("git -C %s apply %s/patch.diff" % (wt, d))
         r1 = sh("cd %s && timeout 600 /venv/bin/python %s/demo.py" % (wt, d), env=env) if a.returncode == 0 else None
